@@ -22,6 +22,7 @@
 #include <climits>
 #include <memory>
 #include <string>
+#include <type_traits>
 #include <unordered_set>
 #include "romea_core_common/containers/grid/WrappableGrid.hpp"
 #include "vh.hpp"
@@ -99,6 +100,35 @@ template<> struct Val<std::string>
     return h;
   }
 };
+
+// Small integral cells ("other instantiations of the template": byte-sized occupancy cells take
+// different code paths in containers, e.g. memset / memcpy specialisations).  The value space is
+// split in ids [0, NID), per-translation empties [NID, NID + NEMPTY) and specials above, so that
+// histories stay unambiguous as long as fewer than NID ids are alive (the byte types are therefore
+// kept to grids of <= 240 cells in the random part; <= 64 cells in the bounded part).
+template<class T, unsigned NID, unsigned NEMPTY> struct SmallVal
+{
+  static T wrap(uint64_t v)
+  {
+    typename std::make_unsigned<T>::type u = static_cast<typename std::make_unsigned<T>::type>(v);
+    T t; std::memcpy(&t, &u, sizeof t); return t;
+  }
+  static T id(uint64_t k) {return wrap(k % NID);}
+  static T empty(uint64_t k) {return wrap(NID + k % NEMPTY);}
+  static T special(uint64_t k)
+  {
+    const uint64_t top = (sizeof(T) == 1 ? 255u : 65535u);
+    const uint64_t S[] = {0, top, top - 1, (top + 1) / 2, (top + 1) / 2 - 1, 1};
+    return wrap(S[k % 6]);
+  }
+  static bool same(T a, T b) {return a == b;}
+  static std::string show(T a) {return std::to_string(static_cast<int>(a));}
+  static uint64_t hash(T a) {return static_cast<uint64_t>(static_cast<int64_t>(a));}
+};
+template<> struct Val<uint8_t>: SmallVal<uint8_t, 240, 12> {static const char * name() {return "uint8";}};
+template<> struct Val<int8_t>: SmallVal<int8_t, 240, 12> {static const char * name() {return "int8";}};
+template<> struct Val<char>: SmallVal<char, 240, 12> {static const char * name() {return "char";}};
+template<> struct Val<uint16_t>: SmallVal<uint16_t, 60000, 5000> {static const char * name() {return "uint16";}};
 
 // --------------------------------------------------------------------------------------------
 // reference model
@@ -373,10 +403,10 @@ static std::vector<I3> translations_in_scope(const I3 & n, int dim)
   return T;
 }
 
-template<size_t DIM> struct Node
+template<class V, size_t DIM> struct Node
 {
-  WrappableGrid<int, DIM> g;
-  Model<int> m;
+  WrappableGrid<V, DIM> g;
+  Model<V> m;
   int parent = -1, t = -1;
   explicit Node(const I3 & n)
   : g(mk_ci<DIM>(n[0], n[1], n[2]))
@@ -385,13 +415,13 @@ template<size_t DIM> struct Node
   }
 };
 
-template<size_t DIM> static Node<DIM> root_state(const I3 & n, uint64_t id_base)
+template<class V, size_t DIM> static Node<V, DIM> root_state(const I3 & n, uint64_t id_base)
 {
-  Node<DIM> r(n);
+  Node<V, DIM> r(n);
   for (int z = 0; z < n[2]; ++z) {
     for (int y = 0; y < n[1]; ++y) {
       for (int x = 0; x < n[0]; ++x) {
-        const int v = Val<int>::id(id_base + r.m.lin(x, y, z));
+        const V v = Val<V>::id(id_base + r.m.lin(x, y, z));
         r.g(mk_ci<DIM>(x, y, z)) = v;
         r.m.write(x, y, z, v);
       }
@@ -400,25 +430,26 @@ template<size_t DIM> static Node<DIM> root_state(const I3 & n, uint64_t id_base)
   return r;
 }
 
-static int empty_of_depth(int d) {return Val<int>::empty(static_cast<uint64_t>(d));}
+// distinct empty value per translation of a history (depth 1..3)
+template<class V> static V empty_of_depth(int d) {return Val<V>::empty(static_cast<uint64_t>(d));}
 
-static std::vector<OpRec> path_ops(const std::vector<I3> & path)
+template<class V> static std::vector<OpRec> path_ops(const std::vector<I3> & path)
 {
   std::vector<OpRec> ops;
   ops.push_back({'W', {{0, 0, 0}}, "all cells, unique ids in x-fastest order", false});
   for (size_t i = 0; i < path.size(); ++i) {
-    ops.push_back({'T', path[i], Val<int>::show(empty_of_depth(static_cast<int>(i) + 1)), false});
+    ops.push_back({'T', path[i], Val<V>::show(empty_of_depth<V>(static_cast<int>(i) + 1)), false});
   }
   return ops;
 }
 
-template<size_t DIM> static std::string state_key(WrappableGrid<int, DIM> & g)
+template<class V, size_t DIM> static std::string state_key(WrappableGrid<V, DIM> & g)
 {
   std::string k;
   const auto & o = g.getIndexOffsetAlongAxes();
   for (size_t a = 0; a < DIM; ++a) {k.push_back(static_cast<char>(o[a]));}
-  const std::vector<int> & b = g.getBuffer();
-  k.append(reinterpret_cast<const char *>(b.data()), b.size() * sizeof(int));
+  const std::vector<V> & b = g.getBuffer();
+  k.append(reinterpret_cast<const char *>(b.data()), b.size() * sizeof(V));
   return k;
 }
 
@@ -429,28 +460,31 @@ struct Unit
   int depth;
   int t1;        // ENUM2D: index of the first translation
   int K, k;      // BFS: chunk k of K of the last expansion
+  int vt;        // cell type of the unit: 0 int, 1 uint8_t
 };
+static const char * vt_name(int vt) {return vt == 0 ? "int" : "uint8";}
 
 static std::string unit_name(const Unit & u)
 {
   char b[160];
   if (u.kind == Unit::ENUM2D) {
-    snprintf(b, sizeof b, "exh2d_enum n=(%d,%d) depth<=%d first_translation#%d", u.n[0], u.n[1], u.depth, u.t1);
+    snprintf(b, sizeof b, "exh2d_enum %s n=(%d,%d) depth<=%d first_translation#%d", vt_name(u.vt), u.n[0], u.n[1],
+      u.depth, u.t1);
   } else {
-    snprintf(b, sizeof b, "%s n=(%d,%d,%d) depth<=%d chunk %d/%d", u.kind == Unit::BFS2D ? "exh2d_bfs" : "exh3d_bfs",
-      u.n[0], u.n[1], u.n[2], u.depth, u.k, u.K);
+    snprintf(b, sizeof b, "%s %s n=(%d,%d,%d) depth<=%d chunk %d/%d", u.kind == Unit::BFS2D ? "exh2d_bfs" : "exh3d_bfs",
+      vt_name(u.vt), u.n[0], u.n[1], u.n[2], u.depth, u.k, u.K);
   }
   return b;
 }
 
 // every sequence t1 t2 .. of length <= depth that starts with translation #t1, no de-duplication
-static void run_enum2d(vh::Ctx & c, const Unit & u, Tally & t)
+template<class V> static void run_enum2d(vh::Ctx & c, const Unit & u, Tally & t)
 {
   const std::vector<I3> T = translations_in_scope(u.n, 2);
   const std::string name = unit_name(u);
   const uint64_t id_base = c.seed % 1000;
-  const Node<2> root = root_state<2>(u.n, id_base);
-  std::vector<Node<2>> lvl(static_cast<size_t>(u.depth) + 1, root);
+  const Node<V, 2> root = root_state<V, 2>(u.n, id_base);
+  std::vector<Node<V, 2>> lvl(static_cast<size_t>(u.depth) + 1, root);
   std::vector<I3> path;
   uint64_t sequences = 0;
   // iterative depth-first enumeration
@@ -462,34 +496,35 @@ static void run_enum2d(vh::Ctx & c, const Unit & u, Tally & t)
     const size_t lim = d == 1 ? end1 : T.size();
     if (it[d] >= lim) {--d; if (d >= 1) {++it[d];} continue;}
     const I3 & off = T[it[d]];
-    Node<2> & s = lvl[d];
+    Node<V, 2> & s = lvl[d];
     s = lvl[d - 1];
     note_translation(t, s.m, off, 2);
-    const int e = empty_of_depth(d);
+    const V e = empty_of_depth<V>(d);
     s.g.translate(mk_co<2>(off), e);
     s.m.translate(off, e);
     ++sequences;
-    const CmpStat st = compare<int, 2>(s.g, s.m, 0);
+    const CmpStat st = compare<V, 2>(s.g, s.m, 0);
     path.resize(static_cast<size_t>(d));
     path[d - 1] = off;
     for (int q = 1; q < d; ++q) {path[q - 1] = T[it[q]];}
-    const bool ok = verdict<int, 2>(c, t, name.c_str(), s.g, s.m, st, d, 0, off, [&]() {return path_ops(path);});
+    const bool ok = verdict<V, 2>(c, t, name.c_str(), s.g, s.m, st, d, 0, off, [&]() {return path_ops<V>(path);});
     if (ok && d < u.depth && t.violations < 40) {++d; it[d] = 0;} else {++it[d];}
   }
   c.count("enum2d_sequences", sequences);
+  if (sizeof(V) == 1) {c.count("exh_byte_cells_transitions", sequences);}
 }
 
 // breadth-first search over real objects, de-duplicated on (index offsets, buffer).  Layers
 // 1..depth-1 are rebuilt by every chunk (cheap); the last expansion is split in K chunks.
-template<size_t DIM> static void run_bfs(vh::Ctx & c, const Unit & u, Tally & t)
+template<class V, size_t DIM> static void run_bfs(vh::Ctx & c, const Unit & u, Tally & t)
 {
   const int dim = static_cast<int>(DIM);
   const std::vector<I3> T = translations_in_scope(u.n, dim);
   const std::string name = unit_name(u);
   const uint64_t id_base = c.seed % 1000;
-  std::vector<std::vector<Node<DIM>>> layers(static_cast<size_t>(u.depth));
-  layers[0].push_back(root_state<DIM>(u.n, id_base));
-  Node<DIM> s = layers[0][0];
+  std::vector<std::vector<Node<V, DIM>>> layers(static_cast<size_t>(u.depth));
+  layers[0].push_back(root_state<V, DIM>(u.n, id_base));
+  Node<V, DIM> s = layers[0][0];
   Tally shadow;    // tallies of the layers recomputed by chunks k > 0 are discarded
   uint64_t states = 0, transitions = 0, frontier_max = 0;
   for (int d = 1; d <= u.depth; ++d) {
@@ -497,7 +532,7 @@ template<size_t DIM> static void run_bfs(vh::Ctx & c, const Unit & u, Tally & t)
     const bool mine = last || u.k == 0;     // who reports / counts this expansion
     Tally & tt = mine ? t : shadow;
     std::unordered_set<std::string> seen;
-    const std::vector<Node<DIM>> & cur = layers[static_cast<size_t>(d) - 1];
+    const std::vector<Node<V, DIM>> & cur = layers[static_cast<size_t>(d) - 1];
     for (size_t i = 0; i < cur.size(); ++i) {
       if (last && static_cast<int>(i % static_cast<size_t>(u.K)) != u.k) {continue;}
       if (mine) {++states;}
@@ -505,30 +540,30 @@ template<size_t DIM> static void run_bfs(vh::Ctx & c, const Unit & u, Tally & t)
         const I3 & off = T[ti];
         s = cur[i];
         note_translation(tt, s.m, off, dim);
-        const int e = empty_of_depth(d);
+        const V e = empty_of_depth<V>(d);
         s.g.translate(mk_co<DIM>(off), e);
         s.m.translate(off, e);
         if (mine) {++transitions;}
-        const CmpStat st = compare<int, DIM>(s.g, s.m, 0);
+        const CmpStat st = compare<V, DIM>(s.g, s.m, 0);
         bool ok;
         if (mine) {
-          ok = verdict<int, DIM>(c, tt, name.c_str(), s.g, s.m, st, d, 0, off, [&]() {
+          ok = verdict<V, DIM>(c, tt, name.c_str(), s.g, s.m, st, d, 0, off, [&]() {
                 // one history reaching this state (parents are the first-found predecessors)
                 std::vector<I3> path(static_cast<size_t>(d));
                 path[static_cast<size_t>(d) - 1] = off;
                 int idx = static_cast<int>(i);
                 for (int q = d - 1; q >= 1; --q) {
-                  const Node<DIM> & p = layers[static_cast<size_t>(q)][static_cast<size_t>(idx)];
+                  const Node<V, DIM> & p = layers[static_cast<size_t>(q)][static_cast<size_t>(idx)];
                   path[static_cast<size_t>(q) - 1] = T[static_cast<size_t>(p.t)];
                   idx = p.parent;
                 }
-                return path_ops(path);
+                return path_ops<V>(path);
               });
         } else {
           ok = !st.bad;
         }
         if (!last && ok) {
-          if (seen.insert(state_key<DIM>(s.g)).second) {
+          if (seen.insert(state_key<V, DIM>(s.g)).second) {
             s.parent = static_cast<int>(i); s.t = static_cast<int>(ti);
             layers[static_cast<size_t>(d)].push_back(s);
           }
@@ -543,6 +578,7 @@ template<size_t DIM> static void run_bfs(vh::Ctx & c, const Unit & u, Tally & t)
   c.count(DIM == 2 ? "bfs2d_states" : "bfs3d_states", states);
   c.count(DIM == 2 ? "bfs2d_transitions" : "bfs3d_transitions", transitions);
   c.count("states", states);
+  if (sizeof(V) == 1) {c.count("exh_byte_cells_transitions", transitions);}
   c.maxi(DIM == 2 ? "bfs2d_largest_frontier" : "bfs3d_largest_frontier", static_cast<double>(frontier_max));
   if (c.verbose) {
     fprintf(stderr, "%s: states expanded %" PRIu64 ", transitions %" PRIu64 ", layer sizes:", name.c_str(), states, transitions);
@@ -578,7 +614,9 @@ static std::vector<Unit> build_units(bool thorough)
   auto add_bfs = [&](Unit::Kind kind, const I3 & n, int depth) {
       const int dim = kind == Unit::BFS3D ? 3 : 2;
       const int K = chunks_for(n, dim, depth);
-      for (int k = 0; k < K; ++k) {U.push_back({kind, n, depth, 0, K, k});}
+      for (int vt = 0; vt < 2; ++vt) {
+        for (int k = 0; k < K; ++k) {U.push_back({kind, n, depth, 0, K, k, vt});}
+      }
     };
   // 3D first (the heaviest units get spread over the shards first)
   const int n3 = 3;
@@ -602,7 +640,9 @@ static std::vector<Unit> build_units(bool thorough)
     for (int nx = 1; nx <= n2; ++nx) {
       const I3 n{{nx, ny, 1}};
       const int nt = static_cast<int>(translations_in_scope(n, 2).size());
-      for (int t1 = 0; t1 < nt; ++t1) {U.push_back({Unit::ENUM2D, n, d2, t1, 1, 0});}
+      for (int t1 = 0; t1 < nt; ++t1) {
+        for (int vt = 0; vt < 2; ++vt) {U.push_back({Unit::ENUM2D, n, d2, t1, 1, 0, vt});}
+      }
     }
   }
   return U;
@@ -637,6 +677,13 @@ static void random_case(vh::Ctx & c, vh::Rng & r, uint64_t idx)
     n[a] = sm < 4 ? static_cast<int>(r.range(1, 4)) : sm < 8 ? static_cast<int>(r.range(1, 8)) :
       static_cast<int>(r.range(5, 8));
   }
+  if (sizeof(V) == 1) {
+    // byte cells: at most 240 ids exist; keep the grid <= 240 cells so that they stay unambiguous.
+    // The LAST axis (whole slabs, contiguous in memory) keeps its size, the leading ones shrink.
+    while (n[0] * n[1] * n[2] > 240) {
+      if (dim == 3 && n[1] > n[0]) {--n[1];} else {--n[0];}
+    }
+  }
   const int max_translations = r.coin(0.2) ? 50 : static_cast<int>(r.range(1, 50));
   const double p_write = r.coin(0.15) ? 0.0 : r.uni(0.1, 0.6);
   char unit[96];
@@ -649,7 +696,7 @@ static void random_case(vh::Ctx & c, vh::Rng & r, uint64_t idx)
   m.init(n);
   std::vector<OpRec> ops;
   uint64_t next_id = c.seed % 1000 + 1, next_empty = 1;
-  uint64_t h = vh::hash_addi(vh::hash_addi(0xC15, static_cast<uint64_t>(dim) * 7 + Val<V>::name()[0]),
+  uint64_t h = vh::hash_addi(vh::hash_addi(0xC15, static_cast<uint64_t>(dim) * 7 + Val<std::string>::hash(Val<V>::name())),
       static_cast<uint64_t>(n[0] + 16 * n[1] + 256 * n[2]));
   Tally t;
 
@@ -764,26 +811,44 @@ static void one_case(vh::Ctx & c, uint64_t idx)
     Tally t;
     const char * cat = u.kind == Unit::ENUM2D ? "exh2d_enum" : u.kind == Unit::BFS2D ? "exh2d_bfs" : "exh3d_bfs";
     c.cat(cat);
-    c.cat("cells_int");
-    if (u.kind == Unit::ENUM2D) {run_enum2d(c, u, t);} else if (u.kind == Unit::BFS2D) {run_bfs<2>(c, u, t);} else {
-      run_bfs<3>(c, u, t);
+    c.cat(u.vt == 0 ? "cells_int" : "cells_uint8");
+    c.cat(u.vt == 0 ? "exh_cells_int" : "exh_cells_uint8");
+    if (u.vt == 0) {
+      if (u.kind == Unit::ENUM2D) {run_enum2d<int>(c, u, t);} else if (u.kind == Unit::BFS2D) {run_bfs<int, 2>(c, u, t);} else {
+        run_bfs<int, 3>(c, u, t);
+      }
+    } else {
+      if (u.kind == Unit::ENUM2D) {run_enum2d<uint8_t>(c, u, t);} else if (u.kind == Unit::BFS2D) {
+        run_bfs<uint8_t, 2>(c, u, t);
+      } else {
+        run_bfs<uint8_t, 3>(c, u, t);
+      }
     }
     // every exhaustive unit contains histories of >= 2 translations -> non-trivial
     c.distinct(vh::hash_addi(vh::hash_addi(vh::hash_addi(0xE15 + u.kind, static_cast<uint64_t>(u.n[0] + 8 * u.n[1] + 64 * u.n[2])),
-      static_cast<uint64_t>(u.depth * 1000003 + u.t1)), static_cast<uint64_t>(u.K * 1000 + u.k)), u.depth >= 2);
+      static_cast<uint64_t>(u.depth * 1000003 + u.t1)), static_cast<uint64_t>(u.K * 1000 + u.k + 1000000 * u.vt)), u.depth >= 2);
     c.sample(cat, [&]() {return vh::J().s("unit", unit_name(u)).f("transitions", t.transitions).str();});
     t.flush(c);
     return;
   }
   vh::Rng r(c.seed, idx);
-  const int ty = static_cast<int>(r.range(0, 9));     // int 40 %, double 30 %, string 30 %
+  // int 20 %, double 15 %, string 15 %, uint8 15 %, int8 15 %, char 10 %, uint16 10 %
+  const int ty = static_cast<int>(r.range(0, 19));
   const bool d3 = r.coin(0.5);
   if (ty < 4) {
     if (d3) {random_case<int, 3>(c, r, idx);} else {random_case<int, 2>(c, r, idx);}
   } else if (ty < 7) {
     if (d3) {random_case<double, 3>(c, r, idx);} else {random_case<double, 2>(c, r, idx);}
-  } else {
+  } else if (ty < 10) {
     if (d3) {random_case<std::string, 3>(c, r, idx);} else {random_case<std::string, 2>(c, r, idx);}
+  } else if (ty < 13) {
+    if (d3) {random_case<uint8_t, 3>(c, r, idx);} else {random_case<uint8_t, 2>(c, r, idx);}
+  } else if (ty < 16) {
+    if (d3) {random_case<int8_t, 3>(c, r, idx);} else {random_case<int8_t, 2>(c, r, idx);}
+  } else if (ty < 18) {
+    if (d3) {random_case<char, 3>(c, r, idx);} else {random_case<char, 2>(c, r, idx);}
+  } else {
+    if (d3) {random_case<uint16_t, 3>(c, r, idx);} else {random_case<uint16_t, 2>(c, r, idx);}
   }
 }
 
